@@ -45,6 +45,31 @@ def run(ctx):
             inspected += 2
         if len(ofails) > 6:
             break
+    # ---- a member that is large once unpacked (a small deflated archive): inspecting it must still not touch the file system
+    try:
+        import io as _io
+        import zipfile as _zf
+
+        import numpy as _np
+        from skops.io import dumps as _dumps
+
+        small = _dumps({"w": _np.zeros(4, dtype="float64"), "b": [1, 2]})
+        schema, names = ioarch.read_schema(small)
+        with _zf.ZipFile(_io.BytesIO(small)) as z:
+            member_name = names[0]
+        buf = _io.BytesIO()
+        _np.save(buf, _np.zeros(10_000_000, dtype="float64"))          # 80 MB unpacked, ~80 kB deflated
+        out = _io.BytesIO()
+        with _zf.ZipFile(out, "w", compression=_zf.ZIP_DEFLATED) as z:
+            z.writestr("schema.json", json.dumps(schema))
+            z.writestr(member_name, buf.getvalue())
+        big = out.getvalue()
+        for msg in iocheck.c02_oracle_inspect(big):
+            ofails.append((msg + " (archive with an 80 MB array member)", dict(kind="big-member", unpacked_bytes=80_000_128, archive_bytes=len(big))))
+        inspected += 2
+        del buf, out, big
+    except MemoryError:
+        pass
     for c, T, r, m in res["obs"]:
         # the part of load that precedes the trust decision: when the verdict is a refusal nothing may have happened
         if r["outcome"] == "untrusted" and (r["events"] or r["ledger"] or [x for x in r["new_modules"] if not x.startswith("encodings")]):
